@@ -118,7 +118,7 @@ Section Parser.
   Fixpoint yaml_map_items (lines : list string) (off_line : nat) (key_col : nat) (content : list node) : list (ynode * ynode) :=
     match content with
     | ck :: child :: r =>
-        (new_yaml_node lines off_line ck (key_col + 2), new_yaml_node lines off_line child (n_col ck + 2))
+        (new_yaml_node lines off_line ck 1, new_yaml_node lines off_line child 1)
           :: yaml_map_items lines off_line key_col r
     | _ => []
     end.
@@ -226,7 +226,7 @@ Section Parser.
                 match get_sc f s with
                 | Some _ => inl (err_rule first last pl ("duplicated " ++ field_name f ++ " key"))
                 | None =>
-                    let y := new_yaml_node lines off_line part (n_col k + 2) in
+                    let y := new_yaml_node lines off_line part 1 in
                     let s := set_sc f (part, y) s in
                     rule_loop lines off_line rest None (set_lines s first (Nat.max last (y_last y)))
                 end
